@@ -121,6 +121,19 @@ SIBLINGS = [
 ]
 
 
+# der() in every syntactic position an equation offers: the variable is a state wherever its derivative is written
+for _pos, _eq in [("if-expression condition", "y = if der(x) > 0 then 1 else -1;"),
+                  ("if-expression branch", "y = if z > 0 then der(x) else 2;"),
+                  ("elseif condition", "y = if z > 0 then 1 elseif der(x) > 0 then 2 else 3;"),
+                  ("function argument holding an if-expression", "y = max(0, if der(x) < 0 then x else z);"),
+                  ("if-equation condition", "if der(x) > 0 then y = 1; else y = 2; end if;"),
+                  ("if-equation branch", "if z > 0 then y = der(x); else y = 2; end if;"),
+                  ("power operand", "y = (der(x) + 1) ^ 2;"),
+                  ("nested call", "y = sin(abs(der(x)));")]:
+    SIBLINGS.append(("model M Real x; Real y; Real z; equation z = time; x = sin(time); %s end M;" % _eq,
+                     {"states": ["x"], "alg_states": ["y", "z"], "inputs": []}, ["der(x)"]))
+
+
 def judge_siblings(txt, want, want_ders):
     try:
         got, ders, outs = observe(txt)
